@@ -215,8 +215,7 @@ def run_integration(rep, tier, seed):
     import signal
     from .timebox import TimeBox
 
-    def handler(signum, frame):
-        raise TimeBox()
+    from .timebox import alarm_handler as handler
 
     g = Gen(seed + 101)
     results = []
@@ -236,7 +235,7 @@ def run_integration(rep, tier, seed):
                 skipped["time_box"] += 1
                 continue
             finally:
-                signal.alarm(0)
+                signal.setitimer(signal.ITIMER_REAL, 0)
             if rec.get("kind") != "status":
                 skipped[rec.get("kind")] += 1
                 continue
@@ -254,8 +253,7 @@ def run_integration_C02(rep, tier, seed):
     import signal
     from .timebox import TimeBox
 
-    def handler(signum, frame):
-        raise TimeBox()
+    from .timebox import alarm_handler as handler
 
     g = Gen(seed + 202)
     results = []
@@ -279,7 +277,7 @@ def run_integration_C02(rep, tier, seed):
                 skipped["time_box"] += 1
                 continue
             finally:
-                signal.alarm(0)
+                signal.setitimer(signal.ITIMER_REAL, 0)
             if rec.get("kind") != "status":
                 skipped[rec.get("kind")] += 1
                 continue
